@@ -406,6 +406,7 @@ def check_C11(tier, seed):
     """memory safety / UB: (i) size accounting and message-buffer ownership evaluated by TLC on every trace (C11-labelled checks
     of TimeWarpTrace and CkptTrace), (ii) the same specification-driven runs re-executed by an ASan+UBSan build"""
     c = syscamp.Campaign("C11", tier, seed, own_ids=["C11"])
+    c.level = "other"
     try:
         c.build()
         c.driver_phase(_alloc_runs(tier, seed + 3))
@@ -468,5 +469,57 @@ def check_C11(tier, seed):
                         rule=ALLOC_RULE + "; every accepted system run and extra allocator histories re-executed under ASan+UBSan",
                         assumptions=["sanitizers only see the executions that are run: inputs outside the generated model family are not covered",
                                      "sequential-consistency interleavings only; no weak-memory reorderings"])
+    finally:
+        c.close()
+
+
+def check_C17(tier, seed):
+    c = syscamp.Campaign("C17", tier, seed, own_ids=["C17"])
+    try:
+        c.build()
+        for n in (2, 3, 4):
+            c.mc_phase("Barrier.tla", "Barrier_%d.cfg" % n, "all interleavings of %d threads over unboundedly many uses (finite state: phases mod 4), "
+                       "safety + liveness under weak fairness" % n, workers=4, timeout=900)
+        import random
+        r = random.Random(seed * 17 + 3)
+        nruns = 48 if tier == "quick" else 400
+        runs = []
+        for i in range(nruns):
+            n = r.choice([2, 2, 3, 3, 4, 5, 6])
+            k = r.choice([9, 10, 12, 16])
+            sw = r.choice(["1/1", "1/2", "1/3", "1/6", "1/20"])
+            pol = r.choice([0, 0, 1, 2])
+            sd = r.randrange(1, 1 << 30)
+            runs.append({"driver": "bardrv", "args": (lambda a: (lambda tr: [tr] + a))([sd, n, k, sw, pol]), "spec": "BarrierTrace.tla",
+                         "cfg": "BarrierTrace.cfg", "label": "bar%d" % i})
+        c.driver_phase(runs)
+        return c.finish(rule="model checking: every interleaving for N=2,3,4; binding: N in 2..6 real threads x 9..16 consecutive uses x random/round-robin/"
+                             "priority schedules switching between the fetch_add and each spin-loop load (distinct by seed), one validated line per arrival/return",
+                        assumptions=["sequential consistency (the acq_rel/relaxed orderings of the C code are not explored)"])
+    finally:
+        c.close()
+
+
+def check_C15(tier, seed):
+    c = syscamp.Campaign("C15", tier, seed, own_ids=["C15"])
+    try:
+        c.build()
+        c.mc_phase("MsgQueueMC.tla", "MsgQueueMC_3.cfg", "3 producers x 4 messages (equal timestamps) + consumer: every load/CAS/retry/exchange/extract/peek interleaving",
+                   workers=8, timeout=900, heap="8g")
+        if tier == "thorough":
+            c.mc_phase("MsgQueueMC.tla", "MsgQueueMC.cfg", "2 producers x 5 messages: every interleaving (1.3M states)", workers=16, timeout=1800, heap="16g")
+        import random
+        r = random.Random(seed * 19 + 5)
+        runs = []
+        for i in range(48 if tier == "quick" else 400):
+            a = [r.randrange(1, 1 << 30), r.choice([1, 2, 2, 3, 3, 4]), r.choice([4, 6, 8, 12]), r.choice(["1/1", "1/2", "1/3", "1/8", "1/30"]),
+                 r.choice([0, 0, 1, 2])]
+            runs.append({"driver": "mqdrv", "args": (lambda a: (lambda tr: [tr] + a))(a), "spec": "MsgQueueTrace.tla", "cfg": "MsgQueueTrace.cfg",
+                         "label": "mq%d" % i, "timeout": 60})
+        c.driver_phase(runs)
+        return c.finish(rule="model checking: every interleaving for 2-3 producers and 4-5 messages with ties; binding: 1..4 real producer threads x 4..12 messages "
+                             "each (4 distinct timestamps, cancelled entries) + the consumer mixing extract and time_peek, schedules switching between load and CAS "
+                             "(distinct by seed); one validated line per push, swap, extraction, peek; the same Push/Drain/Extract checks run inside every system trace",
+                        assumptions=["sequential consistency; release/acquire orderings of the C code are not explored"])
     finally:
         c.close()
